@@ -1290,18 +1290,18 @@ open SrvLts in
 state — any schedule of `Serve`, application goroutines, peer input, the deadline, with or
 without ill-behaved nesting — in which the peer's closing element has been delivered (or `Serve`
 is already in its shutdown) and no application goroutine holds the input or the output lock,
-`Serve`'s return is reached by steps of `Serve` alone, within `rank` steps; and it leaves both
+`Serve`'s return is reached by steps of `Serve` alone, within `rankS` steps; and it leaves both
 directions marked closed and exactly one closing tag on the wire, the last item. -/
 theorem C10_serve_returns_when_peer_closed (nest : Bool) (acts : List Act)
     (hf : (run nest init acts).inLock ≠ .app ∧ (run nest init acts).outLock ≠ .app)
     (hd : (run nest init acts).pending = some .close ∨ inShutdown (run nest init acts).spc = true)
     (hs : (run nest init acts).spc ≠ .notStarted) :
-    ∃ r, let s' := serveRun (rank (run nest init acts).spc) (run nest init acts)
+    ∃ r, let s' := serveRun (rankS (run nest init acts)) (run nest init acts)
       s'.spc = .returned r ∧ s'.inClosed = true ∧ s'.outClosed = true ∧
       ∃ pre, s'.wire = pre ++ [.close] ∧ closeCount pre = 0 := by
   have inv := inv_run nest acts init inv_init
   obtain ⟨r, hr⟩ := returns _ _ inv (Nat.le_refl _) hf hd hs
-  have inv' := inv_serveRun (rank (run nest init acts).spc) _ inv
+  have inv' := inv_serveRun (rankS (run nest init acts)) _ inv
   have hb := inv'.ret r hr
   exact ⟨r, hr, hb.1, hb.2, inv'.shut hb.2⟩
 
@@ -1312,8 +1312,8 @@ example :
     let s := SrvLts.run false SrvLts.init [.start, .serve, .serve, .deliver (.stanza true), .serve, .serve, .serve,
       .appAcquireOut, .appCloseSession, .appReleaseOut, .deliver .close]
     (s.inLock ≠ .app ∧ s.outLock ≠ .app) ∧ s.pending = some .close ∧ s.spc = .handling ∧
-    (SrvLts.serveRun (SrvLts.rank s.spc) s).spc = .returned .nil_ ∧
-    (SrvLts.serveRun (SrvLts.rank s.spc) s).wire = [.el, .close] := by decide
+    (SrvLts.serveRun (SrvLts.rankS s) s).spc = .returned .nil_ ∧
+    (SrvLts.serveRun (SrvLts.rankS s) s).wire = [.el, .close] := by decide
 
 open SrvLts in
 /-- **no deadlock between `Serve`'s shutdown, the handler's writer and the application**
